@@ -292,12 +292,19 @@ def options_stage(tools, work, rep, ev, tier, rng, cfg):
         e = c["e"]
         name = "/".join(e["path"]).encode()
         arch = b""
+        MT = {"5": 5, "big": (1 << 33) + 5, "neg": -86400}
+        WANT = {"0": 0, "5": 5, "max": 0xFFFFFFFF}
+        if e["late"]:                                        # a child first: the directory exists implicitly when its own record arrives
+            arch += tarfmt.header(name + b"/zz_child", b"0", size=1, mtime=5) + tarfmt.pad(b"c")
+        rec = [(b"mtime", b"%d" % MT[e["mtime"]])] if e["mtime"] != "5" else []
         if e["xa"]:
-            arch += tarfmt.pax([(b"SCHILY.xattr.user.k", b"v%d" % i)])
+            rec.append((b"SCHILY.xattr.user.k", b"v%d" % i))
+        if rec:
+            arch += tarfmt.pax(rec)
         if e["kind"] == "dir":
-            arch += tarfmt.header(name + b"/", b"5", mode=0o755, mtime=e["mtime"])
+            arch += tarfmt.header(name + b"/", b"5", mode=0o755, mtime=5)
         else:
-            arch += tarfmt.header(name, b"0", size=3, mtime=e["mtime"]) + tarfmt.pad(b"abc")
+            arch += tarfmt.header(name, b"0", size=3, mtime=5) + tarfmt.pad(b"abc")
         arch += tarfmt.terminator()
         out = "%s/attr%d.sqfs" % (work, i)
         args = (["-r", "r"] if c["rb"] else []) + (["-k"] if c["nk"] else []) + (["-x"] if c["nx"] else [])
@@ -312,8 +319,8 @@ def options_stage(tools, work, rep, ev, tier, rng, cfg):
             g = t.get("/".join(n["path"]).encode())
             if g is None:
                 return i, "entry /%s missing from the image" % "/".join(n["path"]), args
-            if g["mtime"] != n["mtime"]:
-                return i, "entry /%s has time stamp %d, specification %d" % ("/".join(n["path"]), g["mtime"], n["mtime"]), args
+            if g["mtime"] != WANT[n["mtime"]]:
+                return i, "entry /%s has time stamp %d, specification %d" % ("/".join(n["path"]), g["mtime"], WANT[n["mtime"]]), args
             if bool(g["xattrs"]) != n["xa"]:
                 return i, "entry /%s %s an xattr, specification: %s" % ("/".join(n["path"]), "has" if g["xattrs"] else "lacks", n["xa"]), args
         return i, None, args
@@ -323,7 +330,7 @@ def options_stage(tools, work, rep, ev, tier, rng, cfg):
             n += 1
             if bad:
                 rep.violation("tar2sqfs-attribute-options", "tar2sqfs %s on one %s entry %s (mtime %d, xattr %s): %s"
-                              % (" ".join(args) or "(no options)", acases[i]["e"]["kind"], "/".join(acases[i]["e"]["path"]), acases[i]["e"]["mtime"], acases[i]["e"]["xa"], bad),
+                              % (" ".join(args) or "(no options)", acases[i]["e"]["kind"] + (" (listed after its child)" if acases[i]["e"]["late"] else ""), "/".join(acases[i]["e"]["path"]), 0, acases[i]["e"]["xa"], bad) + " [mtime class %s]" % acases[i]["e"]["mtime"],
                               data={"case": acases[i]})
     # ---- sqfs2tar side ----
     write_cfg(cfg, spec="Spec", constants=dict(OC, Side='"s2t"', Emit=True, MaxEntries=1), invariants=["EmitS2T"], deadlock=False)
